@@ -26,6 +26,10 @@ static uint32_t coin_from_string(void* c) {
   return b;
 }
 
+// per call: after every update / merge the scenario reports the cumulative number of flips; logged as [call index, flips, ...] at the
+// calls where it grew - the flip count of each call must be a function of the call index only
+static std::vector<long long> g_fl; static long long g_op = 0, g_last = 0;
+static void tick() { g_op++; long long c = (long long)random_utils::random_bit.calls; if (c != g_last) { g_fl.push_back(g_op); g_fl.push_back(c); g_last = c; } }
 struct Result { std::vector<long long> le, lt; long long n; bool exact; long draws = -1; };
 static uint64_t g_rand_seed = 1;
 
@@ -55,7 +59,17 @@ struct Scenario {
 // deterministic pseudo-random stream values (distinct unless dup > 0)
 static std::vector<double> values(int n, uint64_t salt, int dup) {
   vt::Rng g(salt); std::vector<double> v;
-  for (int i = 0; i < n; i++) v.push_back(dup > 0 ? (double)g.below((uint64_t)dup) : (double)(i * 7 % 101) + (double)g.below(3) * 101.0 + (double)i / 1024.0);
+  // dup > 0: uniform over `dup` values; 0: distinct; duplicate-heavy patterns with skewed multiplicities:
+  // -1: a single outlier followed by copies of one value; -2: two values, 15 % / 85 %; -3: runs of 12 equal values (a run can fill a level)
+  for (int i = 0; i < n; i++) {
+    double x;
+    if (dup > 0) x = (double)g.below((uint64_t)dup);
+    else if (dup == -1) x = i == 0 ? 1.0 : 2.0;
+    else if (dup == -2) x = g.below(100) < 15 ? 3.0 : 5.0;
+    else if (dup == -3) x = (double)((i / 12) * 5 % 7);
+    else x = (double)(i * 7 % 101) + (double)g.below(3) * 101.0 + (double)i / 1024.0;
+    v.push_back(x);
+  }
   return v;
 }
 
@@ -64,23 +78,24 @@ template<class Sk, class Mk> static Scenario updates(const char* name, const cha
   sc.stream = [=](int n) { return values(n, salt, dup); };
   sc.run = [=](int n, const std::vector<double>& probes) {
     Sk s = mk(0);
-    for (double x : values(n, salt, dup)) s.update((float)x);
+    for (double x : values(n, salt, dup)) { s.update((float)x); tick(); }
     return measure(s, probes);
   };
   return sc;
 }
 // A gets pa % of the stream, B pb % (its own k), A.merge(B) (lvalue or rvalue), then A continues with the rest
-template<class Sk, class Mk> static Scenario merged(const char* name, const char* fam, int nmin, int nmax, uint64_t salt, bool rv, Mk mk, int pa = 40, int pb = 50) {
+template<class Sk, class Mk> static Scenario merged(const char* name, const char* fam, int nmin, int nmax, uint64_t salt, bool rv, Mk mk, int pa = 40, int pb = 50, int dup = 0) {
   Scenario sc; sc.name = name; sc.fam = fam; sc.nmin = nmin; sc.nmax = nmax;
-  sc.stream = [=](int n) { return values(n, salt, 0); };
+  sc.stream = [=](int n) { return values(n, salt, dup); };
   sc.run = [=](int n, const std::vector<double>& probes) {
-    std::vector<double> v = values(n, salt, 0);
+    std::vector<double> v = values(n, salt, dup);
     const int na = n * pa / 100, nb = n * pb / 100;
     Sk a = mk(0), b = mk(1);
-    for (int i = 0; i < na; i++) a.update((float)v[i]);
-    for (int i = na; i < na + nb; i++) b.update((float)v[i]);
+    for (int i = 0; i < na; i++) { a.update((float)v[i]); tick(); }
+    for (int i = na; i < na + nb; i++) { b.update((float)v[i]); tick(); }
     if (rv) a.merge(std::move(b)); else a.merge(b);
-    for (int i = na + nb; i < n; i++) a.update((float)v[i]);
+    tick();
+    for (int i = na + nb; i < n; i++) { a.update((float)v[i]); tick(); }
     return measure(a, probes);
   };
   return sc;
@@ -94,7 +109,7 @@ static bool execute(const Scenario& sc, int fmax, long seg) {
   int n = -1, f = 0; long draws0 = -1;
   for (int cand = sc.nmax; cand >= sc.nmin; cand--) {
     std::vector<double> st = sc.stream(cand);
-    g_cs.bits = 0; g_cs.pos = 0; random_utils::random_bit.calls = 0;
+    g_cs.bits = 0; g_cs.pos = 0; random_utils::random_bit.calls = 0; g_fl.clear(); g_op = 0; g_last = 0;
     Result r0 = sc.run(cand, st);
     if ((int)random_utils::random_bit.calls <= fmax) { n = cand; f = (int)random_utils::random_bit.calls; draws0 = r0.draws; break; }
   }
@@ -124,10 +139,10 @@ static bool execute(const Scenario& sc, int fmax, long seg) {
   for (size_t ch = 0; ch < choices; ch++) {
     if (!sc.rand_seeds.empty()) g_rand_seed = sc.rand_seeds[ch];
     for (uint32_t c = 0; c < (1u << f); c++) {
-      g_cs.bits = c; g_cs.pos = 0; random_utils::random_bit.calls = 0;
+      g_cs.bits = c; g_cs.pos = 0; random_utils::random_bit.calls = 0; g_fl.clear(); g_op = 0; g_last = 0;
       Result r = sc.run(n, probes);
       Ev("Leaf").i("leaf", leaf++).i("coins", c).i("choice", (long long)ch).i("flips", (long long)random_utils::random_bit.calls).i("n", r.n).b("exact", r.exact)
-        .b("drawsok", sc.rand_seeds.empty() || r.draws == sc.rand_draws).il("le", r.le).il("lt", r.lt).emit();
+        .b("drawsok", sc.rand_seeds.empty() || r.draws == sc.rand_draws).il("fl", g_fl).il("le", r.le).il("lt", r.lt).emit();
     }
   }
   Ev("Verdict").i("leaves", leaf).emit();
@@ -194,9 +209,9 @@ static Scenario req_shape(const std::string& name, bool hra, const std::vector<i
     typedef req_sketch<float> R;
     std::vector<double> v = values(n, salt, 0);
     std::vector<std::unique_ptr<R>> sk; size_t pos = 0;
-    for (int x : lens) { sk.emplace_back(new R(4, hra)); for (int i = 0; i < x; i++) sk.back()->update((float)v[pos++]); }
-    for (auto& m : shape) { if (rv) sk[m.first]->merge(std::move(*sk[m.second])); else sk[m.first]->merge(*sk[m.second]); }
-    while (pos < v.size()) sk[0]->update((float)v[pos++]);
+    for (int x : lens) { sk.emplace_back(new R(4, hra)); for (int i = 0; i < x; i++) { sk.back()->update((float)v[pos++]); tick(); } }
+    for (auto& m : shape) { if (rv) sk[m.first]->merge(std::move(*sk[m.second])); else sk[m.first]->merge(*sk[m.second]); tick(); }
+    while (pos < v.size()) { sk[0]->update((float)v[pos++]); tick(); }
     return measure(*sk[0], probes);
   };
   return sc;
@@ -295,6 +310,22 @@ int main(int argc, char** argv) {
   // exhaustive classic down-sampling merges (k ratio 2, 4, 8; both directions) ride along with the classic parts 10..14
   { int j = 0; for (int ratio : {2, 4, 8}) for (int dir = 0; dir < 2; dir++, j++)
       parts[10 + j % 5].push_back(downsample("classic-downsample-x" + std::to_string(ratio) + (dir ? "-small-absorbs-large" : "-large-absorbs-small"), ratio, dir == 1, seed * 11 + 20 + (uint64_t)j)); }
+  // duplicate-heavy streams (few distinct values, skewed multiplicities): whether a run is single-valued depends on earlier coins
+  {
+    struct D { const char* tag; int dup; }; static const D DS[] = {{"outlier", -1}, {"two-values", -2}, {"runs", -3}};
+    std::vector<Scenario> pk, pr, pq; int j = 0;
+    for (auto& d : DS) {
+      pk.push_back(updates<K>((std::string("kll-dup-") + d.tag).c_str(), "kll", 40, 100, seed * 11 + 40 + j, d.dup, [](int) { return K(8); }));
+      pr.push_back(updates<R>((std::string("req-dup-") + d.tag).c_str(), "req", 40, 300, seed * 11 + 50 + j, d.dup, [=](int) { return R(4, j % 2 == 0); }));
+      pq.push_back(updates<Q>((std::string("classic-dup-") + d.tag).c_str(), "classic", 12, 20, seed * 11 + 60 + j, d.dup, [](int) { return Q(2); }));
+      j++;
+    }
+    pk.push_back(merged<K>("kll-dup-merge", "kll", 36, 100, seed * 11 + 70, false, [](int) { return K(8); }, 40, 50, -1));
+    pk.push_back(merged<K>("kll-dup-merge-two-values", "kll", 36, 100, seed * 11 + 71, true, [](int j2) { return K(j2 == 0 ? 8 : 12); }, 40, 50, -2));
+    pr.push_back(merged<R>("req-dup-merge", "req", 60, 300, seed * 11 + 72, false, [](int) { return R(4, true); }, 40, 50, -2));
+    pq.push_back(merged<Q>("classic-dup-merge", "classic", 16, 28, seed * 11 + 73, false, [](int) { return Q(2); }, 40, 50, -2));
+    parts.push_back(pk); parts.push_back(pr); parts.push_back(pq);
+  }
   req_shapes(parts, 3, seed, 18);
   if (vt::argl(argc, argv, "--shapes4", 0)) req_shapes(parts, 4, seed + 1, 54);
   if (vt::argl(argc, argv, "--count", 0)) { printf("%zu\n", parts.size()); return 0; }
